@@ -1,14 +1,19 @@
 package main
 
 import (
+	"bytes"
 	"fmt"
 	"os"
 	"path/filepath"
+	"sync"
+	"time"
 
 	"hcverif/harness/internal/fstrace"
 
 	"github.com/brutella/hc"
 	"github.com/brutella/hc/accessory"
+	"github.com/brutella/hc/db"
+	"github.com/brutella/hc/event"
 )
 
 // c20FirstStartCrash: the very first start on an empty storage is killed at every file-system call it makes (real child
@@ -205,4 +210,50 @@ func c20HashPrecision(c *Ctx) {
 		}
 		c.Count(id, true, "stream:hash-precision")
 	}
+}
+
+// c20ConcurrentUnpair: on a STARTED transport (announcing new TXT records takes the responder about a second) two
+// controllers are removed a moment apart, by the handlers of two connections. When both removals are done no pairing is
+// stored — and that is what the accessory advertises.
+func c20ConcurrentUnpair(c *Ctx) {
+	id := "concurrent-unpair#0"
+	if c.Skip(id) {
+		return
+	}
+	dir := c.ScratchDir()
+	sw := accessory.NewSwitch(accessory.Info{Name: "Unpair"})
+	acc, err := startE2E(dir, "00102003", false, sw.Accessory)
+	if err != nil {
+		c.Violate("transport does not start", id, nil, "started", err.Error())
+		return
+	}
+	defer acc.Stop()
+	database, err := dbFor(dir)
+	if err != nil {
+		fatal("db: %v", err)
+	}
+	em := hc.VerifEmitter(acc.t)
+	database.SaveEntity(db.NewEntity("ctrl-A", bytes.Repeat([]byte{1}, 32), nil))
+	database.SaveEntity(db.NewEntity("ctrl-B", bytes.Repeat([]byte{2}, 32), nil))
+	em.Emit(event.DevicePaired{})
+	in := map[string]interface{}{"stored_controllers": 2, "then": "DeleteEntity(ctrl-A)+event and, 200 ms later from another goroutine, DeleteEntity(ctrl-B)+event"}
+	if sf := hc.VerifTxtRecords(acc.t)["sf"]; sf != "0" {
+		c.Violate("discoverable flag sf is not (no controller pairing stored)", id, in, "sf=0 with two pairings", "sf="+sf)
+	}
+	var wg sync.WaitGroup
+	for k, name := range []string{"ctrl-A", "ctrl-B"} {
+		wg.Add(1)
+		go func(k int, name string) {
+			defer wg.Done()
+			time.Sleep(time.Duration(k) * 200 * time.Millisecond)
+			database.DeleteEntity(db.NewEntity(name, nil, nil))
+			em.Emit(event.DeviceUnpaired{})
+		}(k, name)
+	}
+	wg.Wait()
+	time.Sleep(50 * time.Millisecond)
+	if sf := hc.VerifTxtRecords(acc.t)["sf"]; sf != "1" {
+		c.Violate("discoverable flag sf is not (no controller pairing stored)", id, in, "sf=1: no controller pairing is stored any more", "sf="+sf)
+	}
+	c.Count(id, true, "stream:concurrent-unpair")
 }
